@@ -17,6 +17,10 @@ import (
 //   alias  – anything else (an identifier, field, slice expression or other call): the stored value may
 //            alias whatever the expression aliases (possibly the caller's packet buffer)
 // Only `alias` sites are emitted, as "pkg.Func:Type.field" (no line numbers: stable under refactoring).
+//
+// A `go f(args…)` statement retains its arguments for as long as the new goroutine runs - beyond the return of the
+// handler, when the packet loop reuses its buffer.  Every byte-slice-typed argument of a go statement that is
+// not an evident copy is emitted in `goAliasArgs` as "pkg.Func:go callee(arg)"; the reviewed list is empty.
 func isByteSlice(t types.Type) bool {
 	if t == nil {
 		return false
@@ -31,7 +35,8 @@ func isByteSlice(t types.Type) bool {
 
 var copyFuncs = map[string]bool{"CopyMAC": true, "CopyIP": true, "CopyBytes": true, "make": true, "append": true, "Clone": true,
 	"AsSlice": true, "As16": true, "As4": true, "MarshalBinary": true, "ParseMAC": true, "To16": true, "OptionsLeaseTime": true,
-	"mustXID": true, "encodeName": true, "encodeNBNSName": true, "Pack": true, "ReadFile": true, "Marshal": true}
+	"mustXID": true, "encodeName": true, "encodeNBNSName": true, "Pack": true, "ReadFile": true, "Marshal": true,
+	"dupBytes": true, "dupMAC": true}
 
 func classify(info *types.Info, e ast.Expr) string {
 	switch x := e.(type) {
@@ -87,6 +92,7 @@ func classify(info *types.Info, e ast.Expr) string {
 
 func retainFacts(pkgs []*packages.Package, b *strings.Builder) {
 	set := map[string]bool{}
+	goSet := map[string]bool{}
 	for _, p := range pkgs {
 		if !strings.HasPrefix(p.PkgPath, "github.com/irai/packet") || strings.HasSuffix(p.PkgPath, "/fastlog") {
 			continue
@@ -101,6 +107,19 @@ func retainFacts(pkgs []*packages.Package, b *strings.Builder) {
 				fn := short(p.PkgPath) + "." + fd.Name.Name
 				ast.Inspect(fd.Body, func(n ast.Node) bool {
 					switch x := n.(type) {
+					case *ast.GoStmt:
+						callee := exprStr(x.Call.Fun)
+						if sel, ok := x.Call.Fun.(*ast.SelectorExpr); ok {
+							callee = sel.Sel.Name
+						}
+						if _, ok := x.Call.Fun.(*ast.FuncLit); ok {
+							callee = "func"
+						}
+						for _, a := range x.Call.Args {
+							if isByteSlice(info.Types[a].Type) && classify(info, a) == "alias" {
+								goSet[fn+":go "+callee+"("+exprStr(a)+")"] = true
+							}
+						}
 					case *ast.AssignStmt:
 						for i, lhs := range x.Lhs {
 							if i >= len(x.Rhs) || len(x.Lhs) != len(x.Rhs) {
@@ -182,5 +201,11 @@ func retainFacts(pkgs []*packages.Package, b *strings.Builder) {
 		l = append(l, fmt.Sprintf("%q", k))
 	}
 	sort.Strings(l)
+	var gl []string
+	for k := range goSet {
+		gl = append(gl, fmt.Sprintf("%q", k))
+	}
+	sort.Strings(gl)
+	fmt.Fprintf(b, "/-- C10: byte-slice arguments of `go` statements that are not an evident copy (function:go callee(argument)), sorted -/\ndef goAliasArgs : List String := [\n  %s]\n\n", strings.Join(gl, ",\n  "))
 	fmt.Fprintf(b, "/-- C10: sites that store a byte-slice value into a field / record / map element WITHOUT an evident copy\n    (function:target), sorted -/\ndef aliasSites : List String := [\n  %s]\n\n", strings.Join(l, ",\n  "))
 }
